@@ -14,8 +14,9 @@
 (* Permissive points (the property does not settle them): an X-Real-Ip     *)
 (* that is not numeric may either hide a numeric X-Forwarded-For candidate *)
 (* or fall back to it; if every X-Forwarded-For entry is trusted the        *)
-(* leftmost entry or the socket address may be reported; same for an        *)
-(* invalid X-Scheme in front of a valid X-Forwarded-Proto.                  *)
+(* leftmost entry or the socket address may be reported; the protocol may  *)
+(* be any valid entry of the request's own scheme headers or the            *)
+(* connection's protocol (the property fixes no precedence for it).         *)
 (* Not generated: legacy inet_aton spellings ("127.1", "1", "0x7f.0.0.1"), *)
 (* scoped IPv6 literals.                                                   *)
 (***************************************************************************)
@@ -92,12 +93,10 @@ IpAllowed(h) ==
     IF h.xri = <<>> THEN FromXff(h)
     ELSE IF Num(Combined(h.xri)) THEN {Combined(h.xri)} ELSE {cfg.sock} \cup FromXff(h)
 
-ProtoVal(lines) == LET es == Entries(Combined(lines)) IN es[Len(es)]
-GoodProto(lines) == ProtoVal(lines) \in {HTTP, HTTPS}
-FromXfp(h) == IF h.xfp # <<>> /\ GoodProto(h.xfp) THEN {ProtoVal(h.xfp)} ELSE {cfg.proto}
-ProtoAllowed(h) ==
-    IF h.xs = <<>> THEN FromXfp(h)
-    ELSE IF GoodProto(h.xs) THEN {ProtoVal(h.xs)} ELSE {cfg.proto} \cup FromXfp(h)
+(* the property only requires the protocol to be http or https (and not to leak): any valid entry of
+   this request's X-Scheme / X-Forwarded-Proto lists, or the connection's own protocol, is allowed *)
+ProtoEntries(h) == SeqToSet(Entries(Combined(h.xs))) \cup SeqToSet(Entries(Combined(h.xfp)))
+ProtoAllowed(h) == {cfg.proto} \cup ((IF h.xs = <<>> /\ h.xfp = <<>> THEN {} ELSE ProtoEntries(h)) \cap {HTTP, HTTPS})
 
 ----------------------------------------------------------------------------
 Proj == [ips |-> seen.ips, protos |-> seen.protos, n |-> n]
